@@ -481,10 +481,10 @@ def show(p):
 
 
 def run(rep, tier):
+    import os
+    os.environ["SEEDVERIF_C13_TIER"] = tier      # workers enumerate the same pattern list (must be set before the worker pool is forked)
     from .. import scale
     scale.run(rep, PROP, tier)          # size ladders (seedverif/scale.py): the entries that concern this property
-    import os
-    os.environ["SEEDVERIF_C13_TIER"] = tier      # workers enumerate the same pattern list
     rng = core.rng_for(PROP)
     P = pats(tier)
     descs = []
